@@ -40,7 +40,7 @@ def two_grid_cases(strength):
 def potential_cases(strength):
     pts = [[2.0, 0.25, 0.5], [-1.5, 1.0, -0.75], [0.125, 0.25, 3.0]]
     cases = [
-        ("tet", ("P", 1, {}), "scalar", None, pts),
+        ("tet", ("P", 1, {"swapped_normals": [2]}), "scalar", None, pts),
         ("strip3", ("DP", 0, {"segments": [1], "swapped_normals": [1]}), "scalar", 1.0 + 0.25j, pts),
         ("tet", ("RWG", 0, {}), "mfield", 1.25, pts[:2]),
         ("strip3", ("RWG", 0, {"include_boundary_dofs": True}), "efield", 0.75 + 0.5j, pts[:2]),
